@@ -343,7 +343,7 @@ func runPath(in *interpreter, entry *ssa.Function, prefix []decision, solver *So
 				pr.viol.Stack = in.lastPanicStack
 				finish("violation", msg)
 			case engineError:
-				finish("error", r.msg+"\n"+trimStack(r.stack))
+				finish("error", r.msg+"\n  engine stack:\n"+trimStack(r.stack))
 			default:
 				finish("error", fmt.Sprintf("host panic: %v\n%s", r, trimStack(string(debug.Stack()))))
 			}
